@@ -1,6 +1,6 @@
 (* C04 — theorems (statements only; proofs in Proofs*.v). *)
 From Coq Require Import NArith List Bool.
-From LTV.C04 Require Import ParamsGen Model Proofs ProofsTrace ProofsVoid ProofsLive.
+From LTV.C04 Require Import ParamsGen Model Proofs ProofsTrace ProofsVoid ProofsLive ProofsSlots ProofsEndgame ProofsFair.
 Import ListNotations.
 Open Scope N_scope.
 
@@ -41,7 +41,7 @@ Theorem voided_reissued_disconnect : forall s p cp q cq i o l s',
   get_conn s q = Some cq -> c_interested cq = true -> c_unchoked cq = true ->
   valid_block s i o l = true -> getb (c_have cq) i = true -> getb (s_completed s) i = false ->
   (memN i (s_active s) = true \/ getb (s_wanted s) i = true) ->
-  mem_blk i o (s_fin s) = false -> holds cq i o = false ->
+  mem_blk i o (s_fin s) = false -> holds cq i o = false -> listed_any cq i o = false ->
   not_stalled s i o = not_stalled_in cp i o ->
   exists s'', accept s' (SRequest q i o l) = Some s''.
 Proof. exact ProofsVoid.reissue_after_disconnect. Qed.
@@ -64,6 +64,13 @@ Theorem voided_reissued_stall : forall s p c t s', get_conn s p = Some c -> acce
 Proof. exact ProofsVoid.voided_by_stall. Qed.
 Print Assumptions voided_reissued_stall.
 
+Theorem never_queued_behind_stale : forall s p i o l s',
+  accept s (SRequest p i o l) = Some s' ->
+  exists c, get_conn s p = Some c /\
+    forall e, In e (c_q c ++ c_u c ++ c_s c ++ c_c c) -> ~ (e_i e = i /\ e_o e = o).
+Proof. exact Proofs.never_queued_behind_stale. Qed.
+Print Assumptions never_queued_behind_stale.
+
 Theorem pipe_positive : forall aggr rate, 1 <= calculate_pipe_size aggr rate.
 Proof. exact Proofs.pipe_positive. Qed.
 Print Assumptions pipe_positive.
@@ -78,7 +85,8 @@ Print Assumptions no_fatal.
 Theorem eventually_requested_partial : forall s p c i o l,
   get_conn s p = Some c -> c_interested c = true -> c_unchoked c = true ->
   valid_block s i o l = true -> getb (c_have c) i = true -> getb (s_completed s) i = false ->
-  getb (s_wanted s) i = true -> mem_blk i o (s_fin s) = false -> holds c i o = false -> not_stalled s i o = 0 ->
+  getb (s_wanted s) i = true -> mem_blk i o (s_fin s) = false -> holds c i o = false -> listed_any c i o = false ->
+  not_stalled s i o = 0 ->
   exists s', accept s (SRequest p i o l) = Some s' /\ memN i (s_active s') = true.
 Proof. exact ProofsVoid.eventually_requested_partial. Qed.
 Print Assumptions eventually_requested_partial.
@@ -164,6 +172,74 @@ Theorem fixes_present_now :
   fix_update_interested_queues = true /\ fix_have_listed_raises = true /\ choke_checks_stalled = true.
 Proof. exact ProofsLive.fixes_present_now. Qed.
 Print Assumptions fixes_present_now.
+
+(* ---- own download slots only gate requests ---- *)
+Theorem own_slot_gates_requests : forall y p i o l y', yaccept y (SRequest p i o l) = Some y' -> dun y p = true.
+Proof. exact ProofsSlots.own_slot_gates_requests. Qed.
+Print Assumptions own_slot_gates_requests.
+
+Theorem own_unchoke_needs_queue : forall y p y', yaccept y (QueueUnchoke p) = Some y' -> dq (y_x y) p = true.
+Proof. exact ProofsSlots.own_unchoke_needs_queue. Qed.
+Print Assumptions own_unchoke_needs_queue.
+
+Theorem own_unchoke_revoked : forall y ev p y',
+  (ev = Choke p \/ ev = LoseInterest p \/ ev = QueueChoke p \/ ev = Disc p) ->
+  yaccept y ev = Some y' -> dun y' p = false.
+Proof. exact ProofsSlots.own_unchoke_revoked. Qed.
+Print Assumptions own_unchoke_revoked.
+
+Theorem not_while_choked_with_slots : forall plen total comp w evs y p i o l y',
+  yrun (yinit plen total comp w) evs = Some y ->
+  yaccept y (SRequest p i o l) = Some y' ->
+  (exists before after, evs = before ++ SInterested p :: after /\ Forall (int_neutral p) after) /\
+  (exists before after, evs = before ++ Unchoke p :: after /\ Forall (unch_neutral p) after) /\
+  dun y p = true /\ dint (y_x y) p = true.
+Proof. exact ProofsSlots.not_while_choked_with_slots. Qed.
+Print Assumptions not_while_choked_with_slots.
+
+(* ---- endgame ---- *)
+Theorem endgame_cancels_losers : forall s p cp e s',
+  get_conn s p = Some cp -> c_t cp = Some e -> e_valid e = true -> piece_end s p = Some s' ->
+  mem_blk (e_i e) (e_o e) (s_fin s') = true /\
+  forall q cq, q <> p -> get_conn s q = Some cq ->
+    exists cq', get_conn s' q = Some cq' /\
+      (forall e', In e' (all_entries cq') -> same_blk (e_i e) (e_o e) e' = true -> e_valid e' = false) /\
+      c_cancels cq' = c_cancels cq ++ repeat (e_i e, e_o e) (n_valid (e_i e) (e_o e) (c_q cq ++ c_u cq ++ c_s cq ++ c_c cq)).
+Proof. exact ProofsEndgame.endgame_cancels_losers. Qed.
+Print Assumptions endgame_cancels_losers.
+
+Theorem overlap_bounded_at_request : forall s p i o l s', accept s (SRequest p i o l) = Some s' ->
+  (s_aggr s = false -> not_stalled s i o = 0) /\ (s_aggr s = true -> not_stalled s i o < overlapped).
+Proof. exact ProofsEndgame.overlap_bounded_at_request. Qed.
+Print Assumptions overlap_bounded_at_request.
+
+Theorem cancel_only_queued : forall s p i o l s', accept s (SCancel p i o l) = Some s' ->
+  exists c r, get_conn s p = Some c /\ c_cancels c = (i, o) :: r.
+Proof. exact ProofsEndgame.cancel_only_queued. Qed.
+Print Assumptions cancel_only_queued.
+
+(* ---- eventually_requested: the client-internal steps QueueUnchoke, SInterested, SRequest are enabled in sequence.
+   Remains _partial (hypotheses, not theorems): (F1) the scheduler is fair to these three steps (choke_queue really gives
+   the slot to a queued connection: its rotation policy, cf. the finding class no-completion-queue-choked-unqueued and the
+   slot-starvation observation; ticks keep firing; the write buffer has room); (F2) the environment keeps the hypotheses
+   true until they are taken (the peer stays connected and unchoking; if another connection takes the block first the
+   piece is requested anyway); (F3) `dint` is up: given at connect, by have_raises_interest and update_interested, and
+   not dropped while the block is delegatable (interest_kept_while_requestable, conditional on repair (E)); (F4) holders of
+   the block stall or are voided (voided_reissued_*: state predicates, the timers are observed events). ---- *)
+Theorem eventually_requested : forall y p c i o l,
+  let x := y_x y in let s := x_s x in
+  get_conn s p = Some c ->
+  c_unchoked c = true -> getb (c_have c) i = true -> getb (s_completed s) i = false ->
+  (memN i (s_active s) = true \/ getb (s_wanted s) i = true) ->
+  dint x p = true -> dq x p = true ->
+  valid_block s i o l = true -> mem_blk i o (s_fin s) = false -> holds c i o = false -> listed_any c i o = false ->
+  not_stalled s i o = 0 ->
+  (p < length (x_dl x))%nat -> (p < length (y_du y))%nat ->
+  exists y', yrun y [QueueUnchoke p; SInterested p; SRequest p i o l] = Some y' /\
+             Forall (client_step p) [QueueUnchoke p; SInterested p; SRequest p i o l] /\
+             memN i (s_active (x_s (y_x y'))) = true.
+Proof. exact ProofsFair.eventually_requested. Qed.
+Print Assumptions eventually_requested.
 
 Theorem params_ok_now : params_ok = true.
 Proof. exact Proofs.params_ok_now. Qed.
